@@ -85,6 +85,33 @@ Theorem C20_handler_requests_isolated : forall i c k r h, result (HandlerReq i c
 Proof. exact handler_result. Qed.
 Print Assumptions C20_handler_requests_isolated.
 
+(* Requests on ONE provider / legacy server by ANY number of clients (any grant, any credential kind,
+   own or foreign credentials), in any order and number: what a later request is answered does not
+   depend on the requests served before it - a request writes nothing but mutex-protected storage
+   contents, and no answer is computed from state an earlier request of another client left behind. *)
+Theorem C20_provider_requests_history_independent : forall (l : list op) (probe : op) (h : heap),
+  Forall (fun o => is_prov_request o = true) l -> is_prov_request probe = true ->
+  result probe (run_ops l h) = result probe h.
+Proof. exact requests_history_independent. Qed.
+Print Assumptions C20_provider_requests_history_independent.
+
+(* ... in particular a client's request is served as THAT client (own = it presents its own credential;
+   another client's token is never active for it), or refused, whoever was served before *)
+Theorem C20_client_request_served_as_itself : forall i stor cl k own (l : list op) (h : heap),
+  Forall (fun o => is_prov_request o = true) l ->
+  result (ClientReq i stor cl k own) (run_ops l h) = [match k with KIntrospectOther => 0 | _ => if own then S cl else 0 end].
+Proof. exact client_request_result. Qed.
+Print Assumptions C20_client_request_served_as_itself.
+
+(* Package-level helpers (hash selection + HashString, ClaimHash, AES helpers, code challenge) are pure: a call
+   makes no access to any shared location - so it cannot race with anything (C20_drf) - and yields the same
+   value after ANY history of operations of any instances. *)
+Theorem C20_helpers_pure : forall f a,
+  (forall h, accesses (HelperCall f a) h = []) /\
+  forall (l : list op) h, result (HelperCall f a) (run_ops l h) = [1].
+Proof. exact helper_pure. Qed.
+Print Assumptions C20_helpers_pure.
+
 (* The property predicate evaluated by the correspondence run holds of the model on
    every input: every snapshot case (all heaps, all operations) and every interleaving
    of groups none of which writes what another depends on ([wf], computed from the table). *)
